@@ -302,6 +302,9 @@ func suiteGenesis(e *Env) {
 		stepShareclassMore(d, r)
 		stepDAPending(d, r)
 		stepSwaps(d, r, np)
+		if hI == 0 || r.N(2) == 0 {
+			stepClosedPosition(d, r)
+		}
 		for _, f := range d.fails {
 			e.Note("builder: %s", f)
 			e.Stat("builder_failures")
